@@ -35,6 +35,10 @@ MUTATES = {"BN_bn2bin": [1], "BN_bn2bin_padded": [0], "EC_KEY_set_group": [0], "
            "EC_KEY_set_public_key": [0], "EC_POINT_mul": [1], "EC_POINT_oct2point": [1], "EC_POINT_point2oct": [3],
            "ECDH_compute_key": [0], "ECDSA_SIG_get0": [1, 2], "ECDSA_sign": [3, 4], "ECDSA_SIG_to_bytes": [0, 1],
            "ECDSA_SIG_set0": [0, 1, 2], "BN_bin2bn": [2]}
+# aws-lc entry points whose result depends on, or which change, per-thread or process-wide library state (error queue,
+# RNG seeding, global configuration): a wrapper whose behaviour consults them is not a function of its arguments
+THREAD_STATE_PREFIXES = ("ERR_", "RAND_seed", "RAND_add", "RAND_load", "CRYPTO_set", "CRYPTO_THREADID", "ENGINE_", "OPENSSL_init",
+                         "FIPS_mode_set", "CRYPTO_library_init", "OPENSSL_config", "EVP_set_")
 TYPE_NAMES = {"EC_GROUP", "EC_KEY", "EC_POINT", "ECDSA_SIG", "BIGNUM", "point_conversion_form_t"}
 WRAP_NEW = {"LcPtr": False, "ManagedPointer": False, "DetachableLcPtr": True, "DetachablePointer": True}
 FORGETTERS = {"forget", "ManuallyDrop", "leak", "into_raw"}
@@ -53,6 +57,7 @@ class Env:
         self.notes = []
         self.shared = set()       # resources borrowed through `&` (not `&mut`)
         self.shared_mut = []      # aws-lc calls that write through a shared borrow
+        self.thread_state = []    # aws-lc calls that read or write per-thread / global library state
 
     def fresh(self):
         r = self.next
@@ -135,6 +140,8 @@ def eval_items(env, items, scope, depth=0, inline_stack=()):
                 for a in args:
                     eval_items(env, a, scope, depth + 1, inline_stack)
                 uses = tracked_uses(env, argg.items, scope)
+                if name.startswith(THREAD_STATE_PREFIXES) and name != "ERR_clear_error":     # clearing the queue only resets state
+                    env.thread_state.append(name)
                 for mi in (MUTATES.get(name, []) if name not in FREE_FNS else range(len(args))):
                     if mi < len(args):
                         hit = [r for r in tracked_uses(env, args[mi], scope) if r in env.shared]
@@ -438,7 +445,7 @@ def translate(repo="/repo"):
     by_name = {}
     for f in fns:
         by_name.setdefault(f.name, []).append(f)
-    out_fns, unknown, notes, shared_mut = [], set(), [], []
+    out_fns, unknown, notes, shared_mut, thread_state = [], set(), [], [], []
     for f in fns:
         env = Env(by_name, ffi_fns)
         scope = {}
@@ -458,6 +465,7 @@ def translate(repo="/repo"):
         rets = [v[1]] if v is not None and v[0] == "owned" else []
         out_fns.append((qual, env.borrowed, acts, rets))
         shared_mut += [(qual, nm) for nm in env.shared_mut]
+        thread_state += [(qual, nm) for nm in env.thread_state]
         unknown |= env.unknown
         notes += ["%s: %s" % (qual, x) for x in env.notes]
     # ---- lc/ptr.rs facts ---------------------------------------------------------------------------------------
@@ -504,7 +512,7 @@ def translate(repo="/repo"):
                 if ":" in txt:
                     fields.append(txt.split(":", 1)[1])
             structs.append((items[k + 1].text, fields))
-    return dict(shared_mut=sorted(set(shared_mut)), fns=out_fns, unknown=sorted(unknown), notes=notes, managed_ok=managed_ok, detach_drop_ok=detach_drop_ok,
+    return dict(thread_state=sorted(set(thread_state)), shared_mut=sorted(set(shared_mut)), fns=out_fns, unknown=sorted(unknown), notes=notes, managed_ok=managed_ok, detach_drop_ok=detach_drop_ok,
                 detach_ok=detach_ok, alias_ok=alias_ok, free_table=free_table, macro_free_ok=macro_free_ok,
                 sendsync=sorted(sendsync), structs=structs, ffi=sorted(ffi_fns))
 
@@ -533,6 +541,8 @@ def emit(repo="/repo"):
     L.append("def unclassified : List String := [%s]" % ", ".join(lean_str(x) for x in d["unknown"]))
     L.append("/-- (function, aws-lc call): calls that write through (or release) an object the function only holds by shared reference -/")
     L.append("def sharedMutations : List (String × String) := [%s]" % ", ".join("(%s, %s)" % (lean_str(a), lean_str(c)) for a, c in d["shared_mut"]))
+    L.append("/-- (function, aws-lc call): calls that consult or change per-thread / process-wide library state (error queue, RNG seeding, global configuration) -/")
+    L.append("def threadStateCalls : List (String × String) := [%s]" % ", ".join("(%s, %s)" % (lean_str(a), lean_str(c)) for a, c in d["thread_state"]))
     L.append("/-- aws-lc functions imported by lc/mod.rs -/")
     L.append("def ffiImports : List String := [%s]" % ", ".join(lean_str(x) for x in d["ffi"]))
     L.append("/-- `impl Drop for ManagedPointer` is exactly `self.pointer.free();` -/")
